@@ -26,7 +26,12 @@ def run(item):
             or subprocess.call(['git', 'apply', patch], cwd=wt) == 0
         if not ok:
             return name, dict(prop=prop, kind=kind, applied=False)
-        cp = subprocess.run([os.path.join(HERE, 'check'), prop, '--repo', wt, '--no-evidence'], capture_output=True, text=True, cwd=HERE)
+        try:
+            cp = subprocess.run([os.path.join(HERE, 'check'), prop, '--repo', wt, '--no-evidence'], capture_output=True, text=True, cwd=HERE, timeout=2700,
+                                start_new_session=True)
+        except subprocess.TimeoutExpired:
+            subprocess.call(['pkill', '-9', '-f', wt])
+            return name, dict(prop=prop, kind=kind, applied=True, exit=-1, violations=[], undecided=[], summary='check did not finish within 45 min')
         lines = cp.stdout.strip().splitlines()
         return name, dict(prop=prop, kind=kind, applied=True, exit=cp.returncode,
                           violations=[l for l in lines if l.startswith('VIOLATION') or l.strip().startswith('failed obligation')][:8],
@@ -34,12 +39,16 @@ def run(item):
                           summary=lines[-1] if lines else '')
     finally:
         subprocess.call(['git', '-C', '/repo', 'worktree', 'remove', '--force', wt])
+from concurrent.futures import as_completed
+os.makedirs(os.path.dirname(res_path), exist_ok=True)
 with ThreadPoolExecutor(3) as ex:
-    for r in ex.map(run, items):
+    futs = [ex.submit(run, it) for it in items]
+    for fu in as_completed(futs):
+        r = fu.result()
         if r:
             results[r[0]] = r[1]
             print(r[0], r[1].get('exit'), r[1].get('summary', '')[:120], flush=True)
             for v in r[1].get('violations', [])[:4]:
                 print('     ', v[:200])
-os.makedirs(os.path.dirname(res_path), exist_ok=True)
+            json.dump(results, open(res_path, 'w'), indent=1)
 json.dump(results, open(res_path, 'w'), indent=1)
